@@ -41,9 +41,11 @@ theorem sim_setNonce {s s' : Impl} {r : Ref} (c : Cfg) (h : Sim s r) (a : Addr) 
       have hm := hst.mutate (s2 := s2) a o (hst.acct a o hobj hok) [.nonce a o.nonce] (by simp [Impl.jappends, hj])
         (by intro b; simp [Entry.dirtied]) (by intro e he; simp at he; subst he; trivial)
         { o with nonce := n } { (r.cur.getOrNew a).2 with nonce := n } haddr
-        ⟨hok.origin, hok.code, hok.codeEq, hok.live, hok.nd, hok.dc⟩
+        ⟨hok.origin, hok.code, hok.codeEq, hok.live, hok.nd, hok.dc, hok.dho⟩
         (by show ({ viewObj s.store o with nonce := n } : AView) = _; rw [hview]; rfl)
         (undo_mod s.store _ a (fun v => { v with nonce := o.nonce }) _ _ (fun _ => rfl) rfl)
+                (by intro W; simp [JOK, EntryLive])
+                (ook_plain_mutate a o _ _ hobj (fun _ h => h) (by intro e he; simp at he; subst he; exact ⟨rfl, trivial⟩) hst.ook)
       exact h.step hm
 
 /-! ### AddBalance -/
@@ -76,7 +78,7 @@ theorem sim_addBalance {s s' : Impl} {r : Ref} (c : Cfg) (h : Sim s r) (a : Addr
           have hstep : Step s s2 r { (r.cur.getOrNew a).1 with touched := (r.cur.getOrNew a).1.touched ++ [a] } (([] ++ es1) ++ [.touch a]) := by
             refine ⟨jappend_cinv s1 s2 _ hj hst.cinv, hsr.store.trans hst.store, by rw [hjs.1, hst.entries, List.append_assoc],
               hsr.revisions.trans hst.revisions, hsr.nextRev.trans hst.nextRev, hsr.thash.trans hst.thash,
-              entriesOK_append.mpr ⟨hst.static, by intro e he; simp at he; subst he; trivial⟩, ?_, ?_, ?_, ?_, hst.nodup⟩
+              entriesOK_append.mpr ⟨hst.static, by intro e he; simp at he; subst he; trivial⟩, ?_, ?_, ?_, ?_, hst.nodup, ?_, ?_, ?_⟩
             · rw [absI_of_sameRest hsr hv, hst.abs]; rfl
             · rw [List.reverse_append, undoAbs_append, absI_of_sameRest hsr hv]
               exact hst.undo
@@ -86,6 +88,13 @@ theorem sim_addBalance {s s' : Impl} {r : Ref} (c : Cfg) (h : Sim s r) (a : Addr
             · intro b hb
               simp only [List.mem_append, List.mem_singleton, not_or] at hb
               exact hst.tc b hb.1
+            · rw [List.reverse_append, absI_of_sameRest hsr hv]
+              show JOK s.store _ (Entry.touch a :: ([] ++ es1).reverse)
+              exact ⟨trivial, hst.jok⟩
+            · rw [jappend_journal s1 s2 _ hj]; exact hst.cnt.append _
+            · have hok2 : s2.okOf = s1.okOf := by funext b k; simp [Impl.okOf, hjs.2.1]
+              rw [hjs.1, List.reverse_append, hok2]
+              exact ⟨trivial, hst.ook⟩
           have := h.step hstep
           simp only [Ref.step, hn, if_true]
           rw [← hemp, he]
@@ -107,10 +116,12 @@ theorem sim_addBalance {s s' : Impl} {r : Ref} (c : Cfg) (h : Sim s r) (a : Addr
         have hm := hst.mutate (s2 := s2) a o (hst.acct a o hobj hok) [.balance a o.bal] (by simp [Impl.jappends, hj])
           (by intro b; simp [Entry.dirtied]) (by intro e he; simp at he; subst he; trivial)
           { o with bal := o.bal + n } { (r.cur.getOrNew a).2 with bal := (r.cur.getOrNew a).2.bal + n } haddr
-          ⟨hok.origin, hok.code, hok.codeEq, hok.live, hok.nd, hok.dc⟩
+          ⟨hok.origin, hok.code, hok.codeEq, hok.live, hok.nd, hok.dc, hok.dho⟩
           (by show ({ viewObj s.store o with bal := o.bal + n } : AView) = _
               rw [(view_fields hview).2.1, hview]; rfl)
           (undo_mod s.store _ a (fun v => { v with bal := o.bal }) _ _ (fun _ => rfl) rfl)
+                (by intro W; simp [JOK, EntryLive])
+                (ook_plain_mutate a o _ _ hobj (fun _ h => h) (by intro e he; simp at he; subst he; exact ⟨rfl, trivial⟩) hst.ook)
         have := h.step hm
         simp only [Ref.step, hn, if_false]
         exact this
@@ -185,10 +196,12 @@ theorem sim_subBalance {s s' : Impl} {r : Ref} (c : Cfg) (h : Sim s r) (a : Addr
           have hm := hst.mutate (s2 := s2) a o (hst.acct a o hobj hok) [.balance a o.bal] (by simp [Impl.jappends, hj])
             (by intro b; simp [Entry.dirtied]) (by intro e he; simp at he; subst he; trivial)
             { o with bal := o.bal - n } { (r.cur.getOrNew a).2 with bal := (r.cur.getOrNew a).2.bal - n } haddr
-            ⟨hok.origin, hok.code, hok.codeEq, hok.live, hok.nd, hok.dc⟩
+            ⟨hok.origin, hok.code, hok.codeEq, hok.live, hok.nd, hok.dc, hok.dho⟩
             (by show ({ viewObj s.store o with bal := o.bal - n } : AView) = _
                 rw [hbal, hview]; rfl)
             (undo_mod s.store _ a (fun v => { v with bal := o.bal }) _ _ (fun _ => rfl) rfl)
+                (by intro W; simp [JOK, EntryLive])
+                (ook_plain_mutate a o _ _ hobj (fun _ h => h) (by intro e he; simp at he; subst he; exact ⟨rfl, trivial⟩) hst.ook)
           have := h.step hm
           have hgt' : ¬ n > (r.cur.getOrNew a).2.bal := by rw [← hbal]; exact hgt
           simp only [Ref.step, hn, if_false, hgt']
@@ -217,7 +230,7 @@ theorem sim_setCode {s s' : Impl} {r : Ref} (c : Cfg) (h : Sim s r) (a : Addr) (
       have hm := hst.mutate (s2 := s2) a o (hst.acct a o hobj hok) [.code a (o.getCode s1.store) o.codeHash] (by simp [Impl.jappends, hj])
         (by intro b; simp [Entry.dirtied]) (by intro e he; simp at he; subst he; exact hcode)
         (o.setCodeRaw code code) { (r.cur.getOrNew a).2 with code := code } haddr
-        ⟨hok.origin, hgc, fun _ => rfl, hok.live, hok.nd, fun _ => rfl⟩
+        ⟨hok.origin, hgc, fun _ => rfl, hok.live, hok.nd, fun _ => rfl, hok.dho⟩
         (by
           have : viewObj s.store (o.setCodeRaw code code) = { viewObj s.store o with code := code, hash := code } := by
             simp only [viewObj, hgc]; rfl
@@ -228,6 +241,8 @@ theorem sim_setCode {s s' : Impl} {r : Ref} (c : Cfg) (h : Sim s r) (a : Addr) (
               simp only [viewObj, hgc]; rfl
             rw [this, hcode]
             simp only [viewObj, hok.code]))
+                (by intro W; simp [JOK, EntryLive])
+                (ook_plain_mutate a o _ _ hobj (fun _ h => h) (by intro e he; simp at he; subst he; exact ⟨rfl, trivial⟩) hst.ook)
       exact h.step hm
 
 /-! ### storage reads of one object -/
@@ -252,7 +267,14 @@ theorem getCommitted_spec (st : Store) (o o1 : Obj) (k : Key) (v : Val) (hok : O
   | none =>
     simp only [hl] at h
     cases h
-    refine ⟨rfl, rfl, ⟨?_, hok.code, hok.codeEq, hok.live, hok.nd, hok.dc⟩, rfl⟩
+    refine ⟨rfl, rfl, ⟨?_, hok.code, hok.codeEq, hok.live, hok.nd, hok.dc, ?_⟩, rfl⟩
+    rotate_left
+    · intro k' hk'
+      have := hok.dho k' hk'
+      simp only [alookup_append]
+      cases hl' : alookup k' o.origin with
+      | some _ => rfl
+      | none => rw [hl'] at this; cases this
     intro k' v' hk'
     simp only [alookup_append] at hk'
     cases hl' : alookup k' o.origin with
@@ -262,6 +284,30 @@ theorem getCommitted_spec (st : Store) (o o1 : Obj) (k : Key) (v : Val) (hok : O
       by_cases hkk : k = k'
       · subst hkk; simp at hk'; exact hk'.symm
       · simp [hkk] at hk'
+
+theorem getCommitted_origin (st : Store) (o o1 : Obj) (k : Key) (v : Val) (h : o.getCommitted st k = (o1, v)) :
+    (alookup k o1.origin).isSome = true ∧ ∀ k', (alookup k' o.origin).isSome = true → (alookup k' o1.origin).isSome = true := by
+  unfold Obj.getCommitted at h
+  cases hl : alookup k o.origin with
+  | some v0 => simp only [hl] at h; cases h; exact ⟨by simp [hl], fun _ h => h⟩
+  | none =>
+    simp only [hl] at h
+    cases h
+    refine ⟨by simp [alookup_append, hl, alookup], ?_⟩
+    intro k' hk'
+    simp only [alookup_append]
+    cases hl' : alookup k' o.origin with
+    | some _ => rfl
+    | none => rw [hl'] at hk'; cases hk'
+
+theorem getState_origin (st : Store) (o o1 : Obj) (k : Key) (v : Val) (hok : ObjOK st o) (h : o.getState st k = (o1, v)) :
+    (alookup k o1.origin).isSome = true ∧ ∀ k', (alookup k' o.origin).isSome = true → (alookup k' o1.origin).isSome = true := by
+  unfold Obj.getState at h
+  cases hl : alookup k o.dirty with
+  | some v0 =>
+    simp only [hl] at h; cases h
+    exact ⟨hok.dho k (by simp [hl]), fun _ h => h⟩
+  | none => simp only [hl] at h; exact getCommitted_origin st o o1 k v h
 
 theorem getState_spec (st : Store) (o o1 : Obj) (k : Key) (v : Val) (hok : ObjOK st o)
     (h : o.getState st k = (o1, v)) :
@@ -286,9 +332,18 @@ theorem slot_upsert (x : RAcct) (k : Key) (v : Val) :
 /-- replacing a cached object by one with the same view -/
 theorem Step.recache {s s1 : Impl} {r : Ref} {w1 : RWorld} {es : List Entry} (st : Step s s1 r w1 es)
     (a : Addr) (o o1 : Obj) (hacct : s1.view a = some (viewObj s.store o)) (hv : viewObj s.store o1 = viewObj s.store o)
-    (hok : ObjOK s.store o1) (haddr : o1.addr = a) : Step s (s1.setObj o1) r w1 es := by
-  refine st.sameAbs (setObj_cinv s1 st.cinv o1 (by rw [st.store]; exact hok)) (setObj_sameBut s1 o1) ?_
-  rw [setObj_view s1 o1 hok.live, haddr, st.store, hv, ← hacct, updF_self]
+    (hok : ObjOK s.store o1) (haddr : o1.addr = a) (hobj : alookup a s1.objs = some o)
+    (horig : ∀ k, (alookup k o.origin).isSome = true → (alookup k o1.origin).isSome = true) :
+    Step s (s1.setObj o1) r w1 es := by
+  refine st.sameAbs (setObj_cinv s1 st.cinv o1 (by rw [st.store]; exact hok)) (setObj_sameBut s1 o1) ?_ ?_
+  · rw [setObj_view s1 o1 hok.live, haddr, st.store, hv, ← hacct, updF_self]
+  · intro b k hb
+    rw [okOf_setObj, haddr]
+    by_cases hba : b = a
+    · simp only [hba, if_true]
+      rw [hba, okOf_cached s1 a o k hobj] at hb
+      exact horig k hb
+    · simp only [hba, if_false]; exact hb
 
 /-! ### SetState -/
 
@@ -306,12 +361,13 @@ theorem sim_setState {s s' : Impl} {r : Ref} (c : Cfg) (h : Sim s r) (a : Addr) 
       simp only [hgs] at hs
       have hgs' : o.getState s.store k = (o1, prev) := by rw [← hst.store]; exact hgs
       have hsp := getState_spec s.store o o1 k prev hok hgs'
+      have hso := getState_origin s.store o o1 k prev hok hgs'
       have hprev : prev = (r.cur.getOrNew a).2.slot k := by rw [hsp.1]; exact (view_fields hview).2.2.2.2.2.1 k
       have hacct := hst.acct a o hobj hok
       by_cases hpv : prev = v
       · simp only [hpv, if_true, Option.some.injEq] at hs
         subst hs
-        have hst2 := hst.recache a o o1 hacct hsp.2.1 hsp.2.2.1 (hsp.2.2.2.trans haddr)
+        have hst2 := hst.recache a o o1 hacct hsp.2.1 hsp.2.2.1 (hsp.2.2.2.trans haddr) hobj hso.2
         have := h.step hst2
         have hc : (r.cur.getOrNew a).2.slot k = v := by rw [← hprev]; exact hpv
         simp only [Ref.step, hc, if_true]
@@ -327,7 +383,7 @@ theorem sim_setState {s s' : Impl} {r : Ref} (c : Cfg) (h : Sim s r) (a : Addr) 
           have hm := hst.mutate (s2 := s2) a o hacct [.storage a k prev] (by simp [Impl.jappends, hj])
             (by intro b; simp [Entry.dirtied]) (by intro e he; simp at he; subst he; trivial)
             (o1.setStateRaw k v) { (r.cur.getOrNew a).2 with stor := upsert (r.cur.getOrNew a).2.stor k v }
-            (hsp.2.2.2.trans haddr) (objOK_setStateRaw _ _ _ _ hsp.2.2.1)
+            (hsp.2.2.2.trans haddr) (objOK_setStateRaw _ _ _ _ hsp.2.2.1 hso.1)
             (by
               rw [hvs, hview]
               simp only [viewR, slot_upsert]
@@ -338,6 +394,9 @@ theorem sim_setState {s s' : Impl} {r : Ref} (c : Cfg) (h : Sim s r) (a : Addr) 
                 simp only [updF_updF]
                 have : (viewObj s.store o).stor k = prev := hsp.1.symm
                 rw [← this, updF_self]))
+                (by intro W; simp [JOK, EntryLive])
+                (ook_plain_mutate a o _ _ hobj hso.2
+                  (by intro e he; simp at he; subst he; exact ⟨rfl, by simp [EntrySupp, Obj.setStateRaw, hso.1]⟩) hst.ook)
           have := h.step hm
           have hc : ¬ (r.cur.getOrNew a).2.slot k = v := by rw [← hprev]; exact hpv
           simp only [Ref.step, hc, if_false]
@@ -349,7 +408,7 @@ theorem sim_read {s s1 : Impl} {r : Ref} (h : Sim s r) (a : Addr) (ro : Option O
     Sim s1 r ∧ ro.map (viewObj s.store) = (r.cur.get a).map viewR ∧ s1.store = s.store ∧
     (∀ o, ro = some o → ObjOK s.store o ∧ alookup a s1.objs = some o ∧ o.addr = a) := by
   have hs := getObj_spec s h.cinv a s1 ro hg
-  have hst : Step s s1 r r.cur [] := (Step.refl h).sameAbs hs.1 hs.2.1 hs.2.2.1
+  have hst : Step s s1 r r.cur [] := (Step.refl h).sameAbs hs.1 hs.2.1 hs.2.2.1 (getObj_okOf s s1 h.cinv a ro hg)
   refine ⟨h.step hst, ?_, hs.2.1.store, ?_⟩
   · have hv : s.view a = (r.cur.get a).map viewR := view_eq_get h.abs a
     cases ro with
@@ -400,18 +459,21 @@ theorem sim_suicide {s s' : Impl} {r : Ref} (c : Cfg) (h : Sim s r) (a : Addr) (
             subst h1; subst h2
             have hst : Step s s1 r r.cur [] := by
               have hs' := getObj_spec s h.cinv o.addr s1 (some o) hg
-              exact (Step.refl h).sameAbs hs'.1 hs'.2.1 hs'.2.2.1
+              exact (Step.refl h).sameAbs hs'.1 hs'.2.1 hs'.2.2.1 (getObj_okOf s s1 h.cinv o.addr _ hg)
             have hm := hst.mutate (s2 := s3) o.addr o (hst.acct o.addr o hobj hok)
               [.suicide o.addr o.suicided o.bal, .balance o.addr o.bal] (by simp [Impl.jappends, hj, hj2])
               (by intro b; simp [Entry.dirtied]) (by intro e he; simp at he; rcases he with he | he <;> subst he <;> trivial)
               { o with suicided := true, bal := 0 } { x with suicided := true, bal := 0 } rfl
-              ⟨hok.origin, hok.code, hok.codeEq, hok.live, hok.nd, hok.dc⟩
+              ⟨hok.origin, hok.code, hok.codeEq, hok.live, hok.nd, hok.dc, hok.dho⟩
               (by show ({ viewObj s.store o with suicided := true, bal := 0 } : AView) = _; rw [hview]; rfl)
               (by
                 intro W
                 simp only [List.reverse_cons, List.reverse_nil, List.nil_append, List.singleton_append, undoAbs, Entry.undo,
                   AW.modAcct, updF_same, Option.map_some, updF_updF]
                 rfl)
+                (by intro W; simp [JOK, EntryLive])
+                (ook_plain_mutate o.addr o _ _ hobj (fun _ h => h)
+                  (by intro e he; simp at he; rcases he with he | he <;> subst he <;> exact ⟨rfl, trivial⟩) hst.ook)
             have := h.step hm
             simp only [Ref.step, hw]
             exact ⟨by trivial, this⟩
